@@ -4,6 +4,7 @@ CONSTANTS
   MaxLen = 0
   MaxOps = 1
   Depth = 1
+  Kinds = {"d", "h"}
   HistOn = FALSE
   TableFrom = 1
   TableTo = 64
